@@ -10,6 +10,8 @@ CFG = stl.Config(prop='C05', ns='bit', table=SP.BIT, widths={'quick': [64], 'tho
 
 def run(ctx):
     stl.run_property(ctx, CFG)
+    from .c04 import compositional      # theorems for ALL operands of the full-width macros (guarded: its own broken obligation)
+    compositional(ctx, CFG)
 
 
 def replay(ctx, path):
